@@ -186,6 +186,7 @@ pub fn handle(op: &str, args: &[&str], text: &str) -> String {
                 crate::ops_rules::handle,
                 crate::ops_tree::handle,
                 crate::ops_py::handle,
+                crate::ops_prover::handle,
             ] {
                 if let Some(r) = h(op, args, text) {
                     return r;
